@@ -16,6 +16,13 @@ type Value interface{}
 type FloatV struct {
 	F float64 // concrete value (when T == nil)
 	W int     // 32 or 64
+	// T != nil: a float64 holding EXACTLY the signed integer value of the 64-bit term T
+	// ("exact-integer float"). Created by converting a symbolic integer whose magnitude is
+	// shown to stay below 2^52; closed under multiplication by integer-valued constants,
+	// addition/subtraction and comparison as long as magnitudes stay below 2^52 (each such
+	// side condition is a verification condition: a path on which it can fail ends
+	// INCONCLUSIVE, it is never assumed away). Anything else on such a value is unsupported.
+	T *Term
 }
 
 type PoisonV struct{ Why string }
@@ -245,7 +252,7 @@ func zeroValue(t types.Type) Value {
 			w, _ := intWidth(u)
 			return BVC(w, 0)
 		case u.Info()&types.IsFloat != 0:
-			return FloatV{0, floatWidth(u)}
+			return FloatV{F: 0, W: floatWidth(u)}
 		case u.Info()&types.IsString != 0:
 			return &StrV{}
 		case u.Kind() == types.UnsafePointer:
